@@ -129,7 +129,7 @@ def verify_unit(unit, repo, canary=False):
     r.info = info
     gen = os.path.join(BUILD, 'gen')
     os.makedirs(gen, exist_ok=True)
-    path = os.path.join(gen, unit + ('_canary' if canary else '') + '.rs')
+    path = os.path.join(gen, unit + (('_canary' + canary) if canary else '') + '.rs')
     open(path, 'w').write(out.text())
     json.dump({'info': info, 'origin': out.origin}, open(path + '.map.json', 'w'))
     r.assumptions, bad = scan_assumptions(out.lines, out.origin)
@@ -184,9 +184,11 @@ def verify_unit(unit, repo, canary=False):
                 o['primary'] = s.get('is_primary', False)
                 o['span_label'] = s.get('label')
                 f['spans'].append(o)
+        for want in ('canary', 'contract', 'spec'):
+            for o in f['spans']:
+                if o.get('k') == want and f['clause'] is None:
+                    f['clause'] = o
         for o in f['spans']:
-            if o.get('k') in ('contract', 'canary', 'spec') and f['clause'] is None:
-                f['clause'] = o
             if o.get('k') == 'src' and f['site'] is None:
                 f['site'] = o
         r.failures.append(f)
@@ -204,6 +206,9 @@ def obligation_name(f):
     if c and c.get('k') == 'canary':
         return 'canary:%s/%s' % (c['fn'], c['where'])
     if c and c.get('k') == 'spec':
+        if s:
+            what = 'panic reachable' if 'requires false' in c.get('gen_text', '') else 'precondition of spec-level callee (%s)' % c.get('gen_text', '')[:50]
+            return '%s / safety: %s' % (s.get('fn', '?'), what)
         return 'spec:%s:%s' % (c.get('file'), c.get('gen_text', '')[:60])
     if c:
         lab = c.get('label') or c.get('section')
@@ -248,7 +253,7 @@ def relevant(f, prop, cfg):
             return owner in fns
         # call-site precondition: caller is responsible
         return site_fn in fns
-    if c and c.get('k') == 'spec':
+    if c and c.get('k') == 'spec' and not s:
         return None  # undecided
     if s:
         return s.get('fn') in fns
@@ -396,24 +401,28 @@ def main():
     canary_failed_as_required = 0
     if not undecided:
         for u in cfg.get('units', []):
-            rc = verify_unit(u, a.repo, canary=True)
-            if rc.undecided:
-                undecided.append('%s (canary run): %s' % (u, rc.undecided))
-                continue
-            # expected canaries
-            path = os.path.join(BUILD, 'gen', u + '_canary.rs.map.json')
-            org = json.load(open(path))['origin']
-            expected = set((o['fn'], o['where']) for o in org if o.get('k') == 'canary')
-            got = set()
-            for f in rc.failures:
-                c = f['clause']
-                if c and c.get('k') == 'canary' and f['message'].startswith('assertion fail'):
-                    got.add((c['fn'], c['where']))
-            canary_total += len(expected)
-            canary_failed_as_required += len(expected & got)
-            missing = expected - got
-            if missing:
-                undecided.append('%s: vacuous contract - canary assert(false) verified in %s' % (u, sorted(missing)))
+            passes = ['A']
+            base = [r for r in results if r.unit == u][0]
+            if base.info and base.info.get('non_isolated'):
+                passes.append('B')
+            for cp in passes:
+                rc = verify_unit(u, a.repo, canary=cp)
+                if rc.undecided:
+                    undecided.append('%s (canary run %s): %s' % (u, cp, rc.undecided))
+                    continue
+                path = os.path.join(BUILD, 'gen', u + '_canary' + cp + '.rs.map.json')
+                org = json.load(open(path))['origin']
+                expected = set((o['fn'], o['where']) for o in org if o.get('k') == 'canary')
+                got = set()
+                for f in rc.failures:
+                    c = f['clause']
+                    if c and c.get('k') == 'canary' and f['message'].startswith('assertion fail'):
+                        got.add((c['fn'], c['where']))
+                canary_total += len(expected)
+                canary_failed_as_required += len(expected & got)
+                missing = expected - got
+                if missing:
+                    undecided.append('%s: vacuous contract - canary assert(false) verified in %s' % (u, sorted(missing)))
 
     # Kani part
     kani_res = None
@@ -457,7 +466,8 @@ def main():
             fnk = f['site']['fn']
         elif f['clause']:
             fnk = f['clause'].get('fn')
-        oracle = cfg.get('oracles', {}).get(fnk) or cfg.get('oracles', {}).get('*')
+        lab = (f['clause'] or {}).get('label')
+        oracle = cfg.get('oracles', {}).get('#%s' % lab) or cfg.get('oracles', {}).get(fnk) or cfg.get('oracles', {}).get('*')
         wit = None
         summ = None
         if oracle and replay_bin:
